@@ -396,7 +396,7 @@ theorem step_bufInv (st st' : St) (e : Ev) (h : BufInv st) (hs : step st e = .ok
   | ignorableWhitespace s =>
     simp only [step] at hs
     split at hs
-    · cases hs
+    · cases hs; exact h h0
     · cases hs
       have hb := flush_buf st
       simp only [St.appendNode]
